@@ -805,7 +805,9 @@ def free_automaton(generating_set):
         (and their inverses)
 
     """
-    generators = list(generating_set) + [
+    # generating_set may be a one-shot iterator
+    generating_set = list(generating_set)
+    generators = generating_set + [
         words.invert_gen(g) for g in generating_set
     ]
     graph = {
